@@ -63,6 +63,24 @@ void h_ROC(void)
     VC_CHECK("ROC: monotone non-decreasing", roc->data[r + 1][0] >= roc->data[r][0] && roc->data[r + 1][1] >= roc->data[r][1]);
   }
   VC_CHECK("ROC: ends at (1,1)", roc->data[VC_N][0] == 1.0 && roc->data[VC_N][1] == 1.0);
+  /* precision-recall curve on the same data: starts at (recall 0, precision 1), recall non-decreasing, ends at recall 1 */
+  {
+    matrix *pr;
+    double ap;
+    initMatrix(&pr);
+    PrecisionRecall(yt, ys, pr, &ap);
+    VC_CHECK("PR: one point per object plus the start point", pr->row == VC_N + 1 && pr->col == 2);
+    VC_CHECK("PR: starts at recall 0, precision 1", pr->data[0][0] == 0.0 && pr->data[0][1] == 1.0);
+    size_t tp2 = 0, fp2 = 0;
+    for(size_t r = 0; r < VC_N; r++) {
+      if((VC_LABELS >> order[r]) & 1) tp2++; else fp2++;
+      VC_CHECK("PR: k-th point = (recall, precision) of the k highest scores", pr->data[r + 1][0] == (double)tp2 / (double)npos &&
+               pr->data[r + 1][1] == (double)tp2 / (double)(tp2 + fp2));
+      VC_CHECK("PR: recall is non-decreasing", pr->data[r + 1][0] >= pr->data[r][0]);
+    }
+    VC_CHECK("PR: ends at recall 1", pr->data[VC_N][0] == 1.0);
+    VC_CHECK("PR: reported area lies in [0,1] when the area routine returns a value in [0,1]", ap >= 0.0 && ap <= 1.0);
+  }
   VC_REACH();
 }
 #endif
